@@ -3,6 +3,7 @@ C04 - aggregations group, label and reduce exactly as the reference engine.
 -/
 import PromqlVerif.Proofs.Agg
 import PromqlVerif.Proofs.HeapPerm
+import PromqlVerif.Proofs.AccProof
 namespace PromqlVerif.C04
 open PromqlVerif Val
 
@@ -108,5 +109,22 @@ theorem topk_keeps_min_k_n {α : Type} (top : Bool) (k : Nat) (hk : 1 ≤ k) (it
 of the group -/
 theorem topk_keeps_group_samples {α : Type} (top : Bool) (k : Nat) (items : List (α × V)) :
     ∃ dropped, (kSelect top k items ++ dropped).Perm items := kSelect_perm top k items
+
+/-- **the reused accumulators**: the hash aggregation creates one accumulator per group and per
+position in the batch and reuses it for every batch (`Reset(arg)`, then `AddFunc` per member).
+Modelled as written (`Acc.lean`): for every aggregation of the engine, whatever state earlier
+batches left behind, every parameter and every member list, each step's output is the per-step
+reduction `engReduce` - present iff the group has members - so nothing leaks from one batch
+into the next. (`CountLaw`: counting in the value type agrees with counting in `Nat`.) -/
+theorem reused_accumulators_are_per_step (hl : CountLaw V) (op : String)
+    (hop : engineAccumulators.contains op = true) (a : Acc V) (steps : List (V × List V)) :
+    Acc.runs op a steps = steps.map fun s => if s.2.isEmpty then none else some (engReduce op s.1 s.2) :=
+  acc_runs_eq hl op hop a steps
+
+/-- the law holds for exact arithmetic -/
+example : CountLaw Int := by
+  intro n
+  show ((n : Int) + 1 : Int) = ((n + 1 : Nat) : Int)
+  omega
 
 end PromqlVerif.C04
